@@ -3,6 +3,7 @@ package main
 import (
 	"flag"
 	"fmt"
+	"github.com/hashicorp/hcl-lang/schema"
 	"os"
 )
 
@@ -38,6 +39,12 @@ func main() {
 		os.Exit(2)
 	}
 	r := NewRun(prop, *tier, *seed, *out)
+	hooked := 0
+	schemaHook = func(sch *schema.BodySchema) {
+		if hooked++; hooked <= 150 {
+			depKeyCases(r, sch)
+		}
+	}
 	f(r, *replay)
 	r.Finish()
 }
